@@ -18,7 +18,7 @@ TECHNIQUE = 'property-based testing: pre-emption monitor (no inversion, victim c
 WALL = {"quick": 150, "thorough": 540}
 
 ALLOWED = ["priorities", "prio_preempt", "prio_reroute", "batching", "cc_waiting", "cc_after", "discipline", "routing_objects",
-           "self_loops", "inf", "server_priority", "process_routing"]
+           "self_loops", "inf", "server_priority", "process_routing", "exact"]
 
 
 def nontrivial(a, spec, res):
@@ -35,9 +35,10 @@ def classes(a, spec, res):
 
 def subchecks(tier):
     w = {"priorities": 1.0, "prio_preempt": 1.0, "prio_reroute": 0.35, "batching": 0.3, "cc_waiting": 0.3, "cc_after": 0.15,
-         "discipline": 0.2, "routing_objects": 0.3, "self_loops": 0.4, "inf": 0.1, "server_priority": 0.15, "process_routing": 0.15}
+         "discipline": 0.2, "routing_objects": 0.3, "self_loops": 0.4, "inf": 0.1, "server_priority": 0.15, "process_routing": 0.15, "exact": 0.25}
     prof = S.Profile(ALLOWED, weights=w, required=("priorities", "prio_preempt"), numeric="mixed", max_nodes=3, max_classes=3,
-                     plans=("max_time", "max_customers"), horizon=(5.0, 14.0), budget=600, load="heavy")
+                     plans=("max_time", "max_customers"), horizon=(5.0, 14.0), budget=600, load="heavy",
+                     excluded=("floatcmp_precision",))      # exact mode only at k >= 20: the audit compares durations with the float samples at 1e-9
     # pre-emptive priorities at nodes with a non-pre-emptive schedule: servers finishing a customer after their shift are not interrupted, everybody
     # on a server of the current shift is
     wo = {"priorities": 1.0, "prio_preempt": 1.0, "schedule": 1.0, "sched_preempt": 0.0, "cc_waiting": 0.4, "batching": 0.3, "self_loops": 0.3, "discipline": 0.2,
